@@ -37,6 +37,7 @@ ATOMS_FULL = [G.Int(1), G.Int(2), G.Int(0), G.Float(1.5), G.Str("a"), G.Str("<a>
               G.List(G.Int(1), G.Str("<b>")), SAFE("<s>"),
               G.Str(""), G.FALSE, G.Dict((G.Str("k"), G.Str("<c>"))), G.Tuple(G.Str("<d>"), G.Int(2)), G.Str("a,<e>"), G.Int(3)]
 ATOMS_QUICK = ATOMS_FULL[:10]
+ATOMS_QUICK2 = [G.Int(1), G.Int(2), G.Str("<a>"), SAFE("<s>"), G.NONE, G.List(G.Int(1), G.Str("<b>"))]
 ATOMS_3 = [G.Int(2), G.Str("<a>"), SAFE("<s>"), G.NONE, G.List(G.Int(1), G.Str("<b>"))]
 
 
@@ -75,6 +76,8 @@ FORMS = _forms()
 FORMS_SUB = [f for f in FORMS if f.name in (
     "bin:+", "bin:**", "bin:~", "cmp:==", "and", "un:-", "cond", "f:upper", "f:safe", "f:escape", "f:join", "f:replace",
     "f:default(<d>)", "t:defined", "item:0", "slice:-:2:-", "list2")]
+
+FORMS_D3 = [f for f in FORMS if f.name in ("bin:+", "bin:**", "bin:~", "un:-", "cond-", "f:safe", "f:upper", "item:0")]
 
 LEAF_VECTORS = [
     [G.Str("<a>"), G.Int(2), SAFE("<s>"), G.Int(1), G.Str("a"), G.List(G.Int(1), G.Str("<b>"))],
@@ -256,8 +259,10 @@ def depth01_shard(arg):
             p.sample({"expr": G.to_src(a), "contexts": len(CONTEXTS)}, cap=2)
         return p
     f = FORMS[form_idx]
+    if f.arity == 2 and quick:
+        atoms = ATOMS_QUICK2
     if f.arity == 3:
-        atoms = ATOMS_3
+        atoms = ATOMS_3[:3] if quick else ATOMS_3
     for tup in itertools.product(atoms, repeat=f.arity):
         ast = prep(f.build(*tup))
         if ast is None:
@@ -275,7 +280,8 @@ SPACES = {}
 def space(name):
     if name not in SPACES:
         SPACES[name] = {"d2": lambda: G.ShapeSpace([FORMS, FORMS], 2),
-                        "d3": lambda: G.ShapeSpace([FORMS_SUB, FORMS_SUB, FORMS_SUB[:8]], 2)}[name]()
+                        "d2-sub": lambda: G.ShapeSpace([FORMS, FORMS_SUB], 2),
+                        "d3": lambda: G.ShapeSpace([FORMS_D3, FORMS_D3, FORMS_D3])}[name]()
     return SPACES[name]
 
 
@@ -315,13 +321,13 @@ def run(ctx: core.Ctx):
                         "`\"..\"|safe`); containers are lifted leaf-wise", "exceptions compared by class name",
                         "`sameas` not generated"]
     ctx.pmap(depth01_shard, [(quick, i) for i in range(-1, len(FORMS))])
-    n = space("d2").count()
-    plan = [("d2", n, 1, 1, 1000)] if quick else [("d2", n, 3, 4, 500), ("d3", space("d3").count(), 1, 1, 2000)]
+    plan = [("d2-sub", space("d2-sub").count(), 1, 2, 300)] if quick else [
+        ("d2", space("d2").count(), 3, 3, 300), ("d3", space("d3").count(), 1, 1, 2000)]
     shards = []
     for sname, cnt, nvec, nctx, chunk in plan:
         shards += [(sname, a, b, nvec, nctx) for a, b in ranges(cnt, chunk)]
     ctx.pmap(shape_shard, shards)
-    ctx.cov["bounds"] = {"forms": len(FORMS), "atoms_depth1": len(ATOMS_QUICK if quick else ATOMS_FULL),
-                         "atoms_arity3": len(ATOMS_3), "contexts": len(CONTEXTS),
+    ctx.cov["bounds"] = {"forms": len(FORMS), "atoms_arity1": len(ATOMS_QUICK if quick else ATOMS_FULL),
+                         "atoms_arity2": len(ATOMS_QUICK2 if quick else ATOMS_FULL), "atoms_arity3": 3 if quick else len(ATOMS_3), "contexts": len(CONTEXTS),
                          "shape_spaces": {s: {"shapes": c, "leaf_vectors_per_shape": v, "contexts_per_shape": x}
                                           for s, c, v, x, _ in plan}}
